@@ -155,7 +155,7 @@ theorem C11_construct_rejected_without_dpos_share (cr dp : Fixed64 → Fixed64) 
   simp only [hpos]
   simp [coinbaseV2Check]
 
-/-! ### the block-level wrapper (checkTxsContext) -/
+/-! ### the block-level wrapper (checkTxsContext; compared with the real function by the `blk` stream) -/
 
 /-- from `CheckRewardHeight` on, a block is accepted only if its coinbase passes the check … -/
 theorem C11_enforced_from_check_height (crh h : Nat) (res : CbRes) (hh : crh ≤ h) :
